@@ -127,6 +127,8 @@ def list_items(v, what="list"):
 
 
 def truthy(v):
+    if v is VOID:
+        raise OutOfModel("an unspecified value used as a test")
     return v is not False
 
 
@@ -770,7 +772,7 @@ def match_value(v, j, alias=None, depth=0):
     if v is None:
         return j.get("none") is True
     if v is VOID:
-        return j.get("void") is True
+        return True      # an unspecified value: R7RS lets the implementation return anything
     if isinstance(v, bool):
         return j.get("b") is v
     if isinstance(v, int):
